@@ -19,6 +19,9 @@ int main(void){
 #if NK > 2
   ASSUME(0 <= k2 && k2 < myth_tls_n_keys && k2 != k0 && k2 != k1);
 #endif
+#ifdef R0
+  ASSUME((k0 >> 8) == R0 && (k1 >> 8) == R1);   /* case split on the root-level branches (all 16 combinations are run) */
+#endif
 #ifdef KLO
   ASSUME(k0 < KLO && k1 < KLO);     /* restrict to the region that is not affected by a listed known finding */
 #endif
@@ -33,7 +36,7 @@ int main(void){
   if (has2) KA.keys[k2].destructor = d2;
   myth_tls_tree_set(t, k2, nn2 ? &a2 : 0);
 #endif
-  int nodes_used = np, leaves_used = lp;
+  int nodes_used = np, leaves_used = 0;
   myth_tls_tree_fini(t, &KA);                   /* thread exit */
   if (has0 && nn0) CHECK(calls[0] == 1 && vals[0] == &a0, "C11 destructor of key 0 called exactly once with its value");
   if (has1 && nn1) CHECK(calls[1] == 1 && vals[1] == &a1, "C11 destructor of key 1 called exactly once with its value");
